@@ -42,7 +42,7 @@ struct RunRec {
 }
 
 const ENTRIES: &[&str] = &["str", "slice", "reader", "multi", "slice_multi", "read", "wd_str", "wd_slice", "wd_reader"];
-const TARGETS: &[&str] = &["tree", "ignored", "struct", "enum", "map", "optvec", "bytes", "string", "borrowed", "floats"];
+const TARGETS: &[&str] = &["tree", "ignored", "struct", "enum", "map", "optvec", "bytes", "string", "borrowed", "floats", "unit", "units"];
 const OPTS: &[&str] = &["default", "lenient", "tight"];
 
 #[derive(Deserialize, Debug)]
@@ -61,6 +61,9 @@ enum En {
     T(i32, String),
     S { a: bool },
 }
+/// a unit struct: zero-sized, so a sequence of them can grow without allocating
+#[derive(Deserialize, Debug)]
+struct Un;
 #[derive(Deserialize, Debug)]
 #[allow(dead_code)]
 struct Fl {
@@ -191,6 +194,8 @@ fn run_input(inp: &Input, progress: &str, started: &std::sync::Mutex<Instant>) -
                     "bytes" => call::<serde_bytes::ByteBuf>(entry, &bytes, o),
                     "string" => call::<String>(entry, &bytes, o),
                     "borrowed" => call_borrowed(entry, &bytes, o),
+                    "unit" => call::<()>(entry, &bytes, o),
+                    "units" => call::<Vec<Un>>(entry, &bytes, o),
                     _ => call::<Fl>(entry, &bytes, o),
                 };
                 rec.calls += 1;
@@ -251,7 +256,7 @@ fn token_bytes(t: &str) -> &'static [u8] {
         "anchor" => b"&a ", "alias" => b"*a ", "tag" => b"!t ", "strtag" => b"!!str ", "pipe" => b"|\n ", "gt" => b">\n ", "dq" => b"\"", "sq" => b"'",
         "hash" => b" #", "pct" => b"%", "docstart" => b"---\n", "docend" => b"...\n", "merge" => b"<<: ", "tilde" => b"~", "tab" => b"\t", "cr" => b"\r",
         "lf" => b"\n", "sp" => b" ", "bom" => b"\xef\xbb\xbf", "two" => b"\xc3\xa9", "ff" => b"\xff", "word" => b"ab", "num" => b"12", "bang" => b"!",
-        "star" => b"*", "amp" => b"&", _ => b"\\",
+        "star" => b"*", "amp" => b"&", "nulltag" => b"!!null ", "bintag" => b"!!binary ", "inttag" => b"!!int ", _ => b"\\",
     }
 }
 
@@ -298,7 +303,7 @@ fn build_inputs(args: &Args, rng: &mut Rng) -> Vec<Input> {
     let corpus: Vec<&str> = vec![
         "a: 1\nb: [x, y]\nc: {d: ~}\n", "- &a {k: v}\n- *a\n- <<: *a\n  z: 1\n", "--- !!str x\n...\n--- |\n  lit\n--- >-\n  fold\n", "? [a, b]\n: c\n? {x: 1}\n: d\n",
         "a: !!binary aGVsbG8=\nb: 0x1F\nc: 1_000\nd: .inf\ne: 12:30:00\n", "N: 5\nU\n", "{a: 1, b: \"two\\n\", c: 'it''s'}\n", "%YAML 1.2\n---\na: 1\n", "\u{feff}a: b\n",
-        "x: !degrees deg(90) + 1\ny: 1.5\n", "a: &x [1, 2]\nb: *x\nc: [*x, *x]\n", "- - - - a\n- ? b\n  : c\n", "T: [1, two]\n", "S: {a: true}\n", "a:\r\n  - 1\r\n  - 2\r\n",
+        "x: !degrees deg(90) + 1\ny: 1.5\n", "a: &x [1, 2]\nb: *x\nc: [*x, *x]\n", "- - - - a\n- ? b\n  : c\n", "T: [1, two]\n", "S: {a: true}\n", "a:\r\n  - 1\r\n  - 2\r\n", "- !!null x\n- !!null ~\n- !!str\n- !!int 5\n", "!!null 'x'\n", "--- !!null x\n--- ~\n",
     ];
     for c in &corpus { push("corpus", c.as_bytes().to_vec(), &mut v); }
     let nmut = args.num("mutations", 300) as usize;
